@@ -528,6 +528,9 @@ def multi_cases(tier, seed):
             for v in vecs:
                 c = mk('%s:%s' % (kind, wt), 'u64', [int(x) for x in v], ('c03',))
                 out.append(c)
+                if kind == 'tree':
+                    # the same vectors after a history that mixes accepted with rejected (overflowing) operations
+                    out.append(mk('treeh:%s' % wt, 'u64', [int(x) for x in v], ('c03',)))
         for ty in FLOAT_TYS:
             vecs = [[1.0], [1.0, 2.0, 3.0], [0.0, 0.0, 5.0, 0.0], [1e-4, 1e4, 1.0], [0.1] * 10, [1e30, 1.0, 1e-30], [3.0, 0.0, 0.0, 0.0, 1.0, 0.0, 7.0]]
             for _ in range(6 if th else 2):
